@@ -33,6 +33,8 @@ pub enum SOp {
     Stream(SearchSpec, Mods, u8, Option<usize>),
     LastId,
     IsClosed,
+    /// abandon(last_id()): the ID is whatever the handle reports at that moment (0 before any operation)
+    AbandonLast(Mods),
 }
 
 fn behaviour_of(field: &[u8]) -> String {
@@ -179,6 +181,13 @@ fn run_sync(script: &[SOp], sock: UnixStream) -> Vec<Obs> {
         match op {
             SOp::LastId => obs.push(Obs::LastId(conn.last_id())),
             SOp::IsClosed => obs.push(Obs::IsClosed(conn.is_closed())),
+            SOp::AbandonLast(m) => {
+                if let Some(c) = &m.controls {
+                    conn.with_controls(world::raw_controls(c));
+                }
+                let id = conn.last_id();
+                obs.push(Obs::Out(lift(conn.abandon(id), |_| Outcome::Unit)));
+            }
             SOp::Call(call, m) => {
                 if let Some(c) = &m.controls {
                     conn.with_controls(world::raw_controls(c));
@@ -282,6 +291,17 @@ fn run_async(script: &[SOp], sock: UnixStream) -> Vec<Obs> {
             match op {
                 SOp::LastId => obs.push(Obs::LastId(ldap.last_id())),
                 SOp::IsClosed => obs.push(Obs::IsClosed(ldap.is_closed())),
+                SOp::AbandonLast(m) => {
+                    if let Some(c) = &m.controls {
+                        ldap.with_controls(world::raw_controls(c));
+                    }
+                    let id = ldap.last_id();
+                    let o = match world::invoke(&mut ldap, &Call::Abandon(id)).await {
+                        Outcome::Err(c, _) => Outcome::Err(c, String::new()),
+                        o => o,
+                    };
+                    obs.push(Obs::Out(o));
+                }
                 SOp::Call(call, m) => {
                     if let Some(c) = &m.controls {
                         ldap.with_controls(world::raw_controls(c));
@@ -391,6 +411,17 @@ pub fn gen_script(rng: &mut Rng, i: u64) -> Vec<SOp> {
                     m.timeout_ms = Some(60);
                 }
                 let reads = if rng.chance(1, 3) { Some(rng.usize(6)) } else { None };
+                if rng.chance(1, 7) {
+                    // a filter string that does not parse: nothing goes out, and the modifiers set for this
+                    // search must not survive it
+                    s.filter_str = rng.pick(&[&b"(unbalanced"[..], b"(a=b)(c=d)", b"", b"(&(a=b)", b"(a=\\zz)"]).to_vec();
+                    if m.controls.is_none() && rng.bool() {
+                        m.controls = Some(vec![Ctl { oid: b"1.2.3.4.99".to_vec(), crit: false, val: Some(b"stale?".to_vec()) }]);
+                    }
+                    if m.timeout_ms.is_none() && rng.bool() {
+                        m.timeout_ms = Some(40);
+                    }
+                }
                 SOp::Stream(s, m, ad, reads)
             }
             4 => {
@@ -402,9 +433,19 @@ pub fn gen_script(rng: &mut Rng, i: u64) -> Vec<SOp> {
                 if b == "silent" {
                     m.timeout_ms = Some(60);
                 }
+                if rng.chance(1, 7) {
+                    s.filter_str = rng.pick(&[&b"(unbalanced"[..], b"(a=b)(c=d)", b"", b"(&(a=b)", b"(a=\\zz)"]).to_vec();
+                    if m.controls.is_none() && rng.bool() {
+                        m.controls = Some(vec![Ctl { oid: b"1.2.3.4.99".to_vec(), crit: false, val: Some(b"stale?".to_vec()) }]);
+                    }
+                }
                 SOp::Call(Call::Search(s), m)
             }
-            5 => SOp::Call(Call::Abandon(1 + rng.below(20) as i32), mods.clone()),
+            5 => match rng.below(4) {
+                0 => SOp::AbandonLast(mods.clone()),
+                1 => SOp::Call(Call::Abandon(*rng.pick(&[0, 0, i32::MAX])), mods.clone()),
+                _ => SOp::Call(Call::Abandon(1 + rng.below(20) as i32), mods.clone()),
+            },
             6 if rng.chance(1, 4) => SOp::Call(Call::Unbind, mods.clone()),
             _ => {
                 let mut call = gen::gen_call(rng, tok, false, false);
@@ -527,6 +568,7 @@ fn run_case(i: u64, rng: &mut Rng, rep: &mut Report, verbose: bool) {
                 Some(SOp::Stream(..)) => "stream".into(),
                 Some(SOp::LastId) => "last_id".into(),
                 Some(SOp::IsClosed) => "is_closed".into(),
+                Some(SOp::AbandonLast(_)) => "abandon(last_id())".into(),
                 None => "?".into(),
             };
             rep.violation(format!("C14:results:differ:{}", opname), format!("step {}: sync {} async {}; script {}", k, trunc(s), trunc(a), brief(&script)), replay.clone());
@@ -544,6 +586,7 @@ fn run_case(i: u64, rng: &mut Rng, rep: &mut Report, verbose: bool) {
                 SOp::Stream(..) => "steps_stream",
                 SOp::LastId => "steps_last_id",
                 SOp::IsClosed => "steps_is_closed",
+                SOp::AbandonLast(_) => "steps_abandon_last_id",
             },
             1,
         );
@@ -563,6 +606,7 @@ fn brief(script: &[SOp]) -> String {
             SOp::Stream(s, m, ad, r) => format!("stream[{} ad{} reads{:?}]{}{}", s.base.split(',').nth(1).unwrap_or(""), ad, r, if m.controls.is_some() { "+c" } else { "" }, if m.opts.is_some() { "+o" } else { "" }),
             SOp::LastId => "last_id".into(),
             SOp::IsClosed => "is_closed".into(),
+            SOp::AbandonLast(_) => "abandon(last_id())".into(),
         })
         .collect::<Vec<_>>()
         .join(" ")
